@@ -95,6 +95,9 @@ def run(chk):
     if not proved and not found:
         where, pout = getattr(chk, "proof_error", ("?", ""))
         chk.broken("proof obligation Properties/C02.v no longer checks (%s)" % where, pout)
+    # DTLS 1.3 handshake machinery: model Hs/Hs13.v, theorems Properties/C02hs13.v, trace replay
+    import hs13lib
+    hs13lib.run_c02(chk, regenerate=False)
     chk.finish(
         level="proof",
         rule="real client+server handshakes in a synctest bubble over a scripted network, 12 variants (PSK, certificate, "
